@@ -12,7 +12,7 @@ EXTENDS Request, FiniteSets
 
 VARIABLES reqs,      \* round: id -> [sock, cls, v, len, answers, routable]
           roots,     \* round: set of <<root_id, v, indx, pathlen>> seen (responses sharing a signed root)
-          totals     \* section: [arrivals, replies, bytes, greased, failing, unroutable]
+          totals     \* section (since the last statistics publication): [arrivals, replies, bytes, greased, failing, unroutable, socks]
 avars == <<reqs, roots, totals>>
 
 NoReqs == <<>>      \* ids are 1..Len(reqs): a sequence of records
@@ -23,7 +23,7 @@ RoundBegin == reqs' = NoReqs /\ roots' = {} /\ UNCHANGED totals
 \* (source port 0): the server's send fails, nothing can be observed; the statistics must say so
 Receive(sock, f, routable) ==
     /\ reqs' = Append(reqs, [sock |-> sock, cls |-> Classify(f), v |-> ProtoOf(f), len |-> f.len, answers |-> 0, routable |-> routable])
-    /\ totals' = [totals EXCEPT !.arrivals = @ + 1,
+    /\ totals' = [totals EXCEPT !.arrivals = @ + 1, !.socks = @ \cup {sock},
                                 !.unroutable = @ + (IF ~routable /\ Classify(f) = "must" THEN 1 ELSE 0)]
     /\ UNCHANGED roots
 
